@@ -5,6 +5,12 @@ use std::collections::{HashMap, HashSet};
 #[derive(Debug)]
 pub struct NameMap {
     names: HashMap<NameSymbol, NameString>,
+
+    /// Names declared directly inside each namespace
+    namespace_names: HashMap<NamespaceId, HashSet<String>>,
+
+    /// Names declared inside structs and functions - for which we do not track where they are visible
+    inner_names: HashSet<String>,
 }
 
 /// Any kind of named symbol
@@ -19,7 +25,8 @@ pub enum NameSymbol {
 }
 
 /// A name which may have namespace qualification
-pub struct ScopedName(pub Vec<String>);
+/// The flag is set when the path has to be anchored at the root namespace to find the symbol
+pub struct ScopedName(pub Vec<String>, pub bool);
 
 #[derive(Debug)]
 struct NameString {
@@ -36,6 +43,8 @@ impl NameMap {
     ) -> NameMap {
         let mut name_map = NameMap {
             names: HashMap::new(),
+            namespace_names: HashMap::new(),
+            inner_names: HashSet::new(),
         };
 
         let mut scopes: HashMap<Option<NamespaceId>, HashMap<String, Vec<NameSymbol>>> =
@@ -248,7 +257,58 @@ impl NameMap {
             }
         }
 
+        // Collect the names that can hide a root symbol from a path that does not start with ::
+        for name_string in name_map.names.values() {
+            if let Some(namespace) = name_string.namespace {
+                let names = name_map.namespace_names.entry(namespace).or_default();
+                names.insert(name_string.name.clone());
+            }
+        }
+        for i in 0..module.enum_registry.get_enum_count() {
+            let def = module.enum_registry.get_enum_definition(EnumId(i));
+            if let Some(namespace) = def.namespace {
+                let names = name_map.namespace_names.entry(namespace).or_default();
+                for value_id in module.enum_registry.get_values(EnumId(i)) {
+                    let value = module.enum_registry.get_enum_value(*value_id);
+                    names.insert(value.name.node.clone());
+                }
+            }
+        }
+        for id in module.variable_registry.iter() {
+            let name = name_map.get_name_leaf(NameSymbol::LocalVariable(id));
+            name_map.inner_names.insert(name.to_string());
+        }
+        for def in &module.struct_registry {
+            for member in &def.members {
+                name_map.inner_names.insert(member.name.clone());
+            }
+            for method in &def.methods {
+                if let Some(name_string) = name_map.names.get(&NameSymbol::Function(*method)) {
+                    name_map.inner_names.insert(name_string.name.clone());
+                }
+            }
+        }
+
         name_map
+    }
+
+    /// Check if a name in the root namespace may be hidden by another declaration when used from a namespace
+    pub fn is_hidden_from_root(&self, name: &str, used_from: Option<NamespaceId>) -> bool {
+        if self.inner_names.contains(name) {
+            return true;
+        }
+
+        let mut namespace = used_from;
+        while let Some(current) = namespace {
+            if let Some(names) = self.namespace_names.get(&current) {
+                if names.contains(name) {
+                    return true;
+                }
+            }
+            namespace = self.names[&NameSymbol::Namespace(current)].namespace;
+        }
+
+        false
     }
 
     /// Get the leaf name for a given symbol
@@ -260,8 +320,12 @@ impl NameMap {
         &name.name
     }
 
-    /// Get the qualified name for a given symbol
-    pub fn get_name_qualified(&self, symbol: NameSymbol) -> ScopedName {
+    /// Get the qualified name for a given symbol when used from a namespace
+    pub fn get_name_qualified(
+        &self,
+        symbol: NameSymbol,
+        used_from: Option<NamespaceId>,
+    ) -> ScopedName {
         let name = match self.names.get(&symbol) {
             Some(name) => name,
             None => panic!("No name for symbol {:?}", symbol),
@@ -275,6 +339,7 @@ impl NameMap {
             namespace = current_name.namespace;
         }
 
-        ScopedName(segmented_name)
+        let is_hidden = self.is_hidden_from_root(&segmented_name[0], used_from);
+        ScopedName(segmented_name, is_hidden)
     }
 }
